@@ -36,12 +36,14 @@ import (
 
 var opts = &syntax.FileOptions{Set: true, While: true, TopLevelControl: true, GlobalReassign: true, Recursion: true}
 
-var reasons = []string{"too many steps", "r1", "r2", "r3", "r4", "watchdog"}
+var reasons = []string{"too many steps", "r1", "r2", "r3", "r4", "watchdog", ""}
 
 const watchdogReason = 5
+const emptyReason = 6 // thread.Cancel(""): a reason like any other
 
 type op struct {
-	C int `json:"c"` // >0: Cancel(reasons[c]); 0: Uncancel
+	C int    `json:"c"`           // >0: Cancel(reasons[c]); 0: Uncancel; -1: SetMaxExecutionSteps(ExecutionSteps()+M)
+	M uint64 `json:"m,omitempty"` // for c == -1
 }
 
 type entry struct {
@@ -72,10 +74,13 @@ func (h *host) builtin(thread *starlark.Thread, _ *starlark.Builtin, args starla
 	if ops, ok := h.plan[k]; ok {
 		do := func() {
 			for _, o := range ops {
-				if o.C > 0 {
+				switch {
+				case o.C > 0:
 					thread.Cancel(reasons[o.C])
-				} else {
+				case o.C == 0:
 					thread.Uncancel()
+				default: // the limit is installed / lowered while Starlark code is running
+					thread.SetMaxExecutionSteps(thread.ExecutionSteps() + o.M)
 				}
 			}
 		}
@@ -105,7 +110,13 @@ func classify(err error) (string, int) {
 	}
 	msg := err.Error()
 	if strings.Contains(msg, "cancelled") {
+		if strings.HasSuffix(msg, "cancelled: ") {
+			return "cancelled", emptyReason
+		}
 		for i, r := range reasons {
+			if r == "" {
+				continue
+			}
 			if strings.HasSuffix(msg, ": "+r) {
 				return "cancelled", i
 			}
@@ -549,7 +560,7 @@ func main() {
 			}
 		}
 		// inj: cancel scripts from inside the k-th built-in call
-		scripts := [][]op{{{1}}, {{1}, {2}}, {{1}, {0}}, {{0}, {2}}, {{1}, {0}, {3}}, {{0}}}
+		scripts := [][]op{{{C: 1}}, {{C: 1}, {C: 2}}, {{C: 1}, {C: 0}}, {{C: 0}, {C: 2}}, {{C: 1}, {C: 0}, {C: 3}}, {{C: 0}}, {{C: emptyReason}}, {{C: emptyReason}, {C: 2}}, {{C: 0}, {C: emptyReason}}}
 		for k := 1; k <= len(s.Idx) && k <= 12; k++ {
 			for si, ops := range scripts {
 				for _, other := range []bool{false, true} {
@@ -658,7 +669,7 @@ func main() {
 		for i := 0; i < m; i++ {
 			switch c := rr.Intn(8); {
 			case c == 0:
-				x := 1 + rr.Intn(4)
+				x := []int{1, 2, 3, 4, emptyReason}[rr.Intn(5)]
 				th.Cancel(reasons[x])
 				if cur < 0 {
 					cur = x
@@ -705,7 +716,7 @@ func main() {
 				plan := map[int][]op{}
 				if len(s.Idx) > 0 && rr.Intn(2) == 0 {
 					k := 1 + rr.Intn(len(s.Idx))
-					plan[k] = [][]op{{{1 + rr.Intn(4)}}, {{0}}, {{1 + rr.Intn(4)}, {0}}, {{0}, {1 + rr.Intn(4)}}}[rr.Intn(4)]
+					plan[k] = [][]op{{{C: 1 + rr.Intn(4)}}, {{C: 0}}, {{C: 1 + rr.Intn(4)}, {C: 0}}, {{C: 0}, {C: 1 + rr.Intn(4)}}, {{C: emptyReason}}}[rr.Intn(5)]
 				}
 				if !unlimited() && s.End == "inf" && lim > *capN {
 					continue // beyond the measured prefix
@@ -746,6 +757,40 @@ func main() {
 			}
 		}
 		hx.Emit(line{Kind: "life", N: n, Hook: hook, Life: evs, Coq: li < *coqBudget/10+20, Viol: viol})
+	}
+	// setmax-in-builtin: the limit is installed or lowered by a built-in while the script is running; the rest of the
+	// computation stays in frames that were already active (loops at top level and in the callers)
+	for _, p := range allProgs {
+		s := shapes[p.Name]
+		for k := 1; k <= len(s.Idx) && k <= 6; k++ {
+			for _, m := range []uint64{1, 2, 5, 30} {
+				for _, start := range []uint64{0, *capN + 40} {
+					if start == 0 && s.End == "inf" {
+						continue // with the limit ignored the run would only be stopped by the watchdog
+					}
+					h := &host{plan: map[int][]op{k: {{C: -1, M: m}}}}
+					th := &starlark.Thread{}
+					th.SetMaxExecutionSteps(start)
+					o := exec(th, h, p.Src)
+					newLimit := s.Idx[k-1] + m
+					viol := ""
+					for _, e := range h.log {
+						if e.Ord > k && e.Steps >= newLimit {
+							viol = fmt.Sprintf("built-in entered at step %d although call %d had set the limit to %d", e.Steps, k, newLimit)
+						}
+					}
+					if s.T >= newLimit {
+						if o.Res != "cancelled" || o.Reason != 0 || o.Steps != newLimit {
+							viol = fmt.Sprintf("limit set to %d by built-in call %d (at step %d), program needs %d: result %s/%d at step %d", newLimit, k, s.Idx[k-1], s.T, o.Res, o.Reason, o.Steps)
+						}
+					} else if o.Res != s.End || o.Steps != s.T {
+						viol = fmt.Sprintf("limit set to %d by built-in call %d is not reached (program needs %d): result %s at step %d", newLimit, k, s.T, o.Res, o.Steps)
+					}
+					oo := o
+					hx.Emit(line{Kind: "setmax-in-builtin", Prog: p.Name, N: newLimit, K: k, Ops: h.plan[k], Obs: &oo, Viol: viol})
+				}
+			}
+		}
 	}
 	// jump: the step counter gets past the limit without landing on it -- a built-in charges steps by adding to
 	// thread.Steps, or a re-used thread is given a limit below what it has already counted -- with the default
@@ -849,13 +894,17 @@ func main() {
 		th.SetMaxExecutionSteps(asyncSafety) // only reached if the cancellation is not observed
 		delay := time.Duration(rr.Intn(3000)) * time.Microsecond
 		two := rr.Intn(3) == 0
+		r1idx := 1
+		if rr.Intn(3) == 0 {
+			r1idx = emptyReason
+		}
 		var mark int64 = -1
 		var wg sync.WaitGroup
 		wg.Add(1)
 		go func() {
 			defer wg.Done()
 			time.Sleep(delay)
-			th.Cancel("r1")
+			th.Cancel(reasons[r1idx])
 			mark = atomic.LoadInt64(&h.count)
 		}()
 		if two {
@@ -874,7 +923,7 @@ func main() {
 		if late > 1 {
 			viol = fmt.Sprintf("%d built-in calls entered after Cancel had returned", late)
 		}
-		if o.Res != "cancelled" || !(o.Reason == 1 || (two && o.Reason == 2)) {
+		if o.Res != "cancelled" || !(o.Reason == r1idx || (two && o.Reason == 2)) {
 			viol = fmt.Sprintf("result %s/%d (%s)", o.Res, o.Reason, o.Msg)
 			if o.Res == "cancelled" && o.Reason == 0 {
 				viol = fmt.Sprintf("cancelled from another goroutine after %v but ran on to the safety limit of %d steps", delay, uint64(asyncSafety))
